@@ -671,7 +671,12 @@ class Output(object):
             #     script_type = script_type_default(address.witness_type, address.multisig, True)
             self.public_hash = self._address_obj.hash_bytes
             self.witver = self._address_obj.witver
-            self.network = self._address_obj.network
+            if self._address_obj.network.name != self.network.name:
+                # An Address or HDKey object of another network is refused, unless its address is valid here as well
+                network_guesses = deserialize_address(self._address, self._address_obj.encoding)['networks']
+                if self.network.name not in network_guesses:
+                    raise TransactionError("Network for output address %s is different from transaction network. "
+                                           "%s not in %s" % (self._address, self.network.name, network_guesses))
             self.encoding = self._address_obj.encoding
             self.witness_type = self._address_obj.witness_type
 
